@@ -518,6 +518,9 @@ Definition metric_name_ok (lg : bool) (n : str) : bool :=
 (* every family carries a valid metric name (otherwise the encodings are not parseable) *)
 Definition family_names_ok (lg : bool) (fs : list family) : bool := forallb (fun f => metric_name_ok lg (f_name f)) fs.
 
+(* final normalisation: inside every family the metrics are sorted by (labels, timestamp) -- sort.IsSorted(MetricSorter) *)
+Definition metrics_sorted (fs : list family) : bool := forallb (fun f => is_sorted metric_lt (f_metrics f)) fs.
+
 (* final normalisation: no empty family is returned *)
 Definition no_empty_family (fs : list family) : bool := forallb nonempty fs.
 
